@@ -120,6 +120,13 @@ CHECKS = {
        'select the same elements; bounded enumeration chosen by symbolic index.',
   design_ref='DESIGN.md §4 C09',
   technique='CrossHair symbolic execution of the real tokenizer step/css_unescape + z3 (symbolic fillers), respelling metamorphic relation, replay'),
+ 'C11': dict(
+  text='Symbolic checking of the case rules: the document spells tag names, attribute names and attribute values with a '
+       'symbolic ASCII case mask (solver-chosen) in HTML, XHTML and XML trees built through the bs4 API, against selector '
+       'spellings and i/s flags with a reference rule table; all cells exhaust. Parser-built trees (html.parser, lxml, '
+       'html5lib, lxml-xml) and the HTML-only pseudo-classes in XML are enumerated.',
+  design_ref='DESIGN.md §4 C11',
+  technique='CrossHair symbolic execution of real matcher + z3 (symbolic case masks), reference rule table, replay'),
 }
 
 NOT_APPLICABLE = {
